@@ -40,6 +40,7 @@ type Pkg struct {
 	YieldFunc  map[int]string // yield site -> function name
 	PkgID      int
 	UsesSync   bool
+	UnsimSync  bool // uses synchronisation the simulator does not model (atomic, Once, Cond, WaitGroup, ...)
 	Swagger    *openapi3.Swagger
 	BasePathFlag string
 	Discr      map[string]*values.DiscrInfo
@@ -92,10 +93,10 @@ var handlerType = reflect.TypeOf((*http.Handler)(nil)).Elem()
 
 var Packages []*Pkg
 
-func Register(name, importPath, class, spec string, pkgID int, usesSync bool, yieldFuncs map[int]string, reg RegistryFunc) {
+func Register(name, importPath, class, spec string, pkgID int, usesSync, unsimSync bool, yieldFuncs map[int]string, reg RegistryFunc) {
 	types, globals, funcs, oneOf := reg()
 	p := &Pkg{Name: name, ImportPath: importPath, Class: class, Spec: spec, Types: types, Globals: globals, Funcs: funcs, OneOf: map[string]bool{},
-		MwField: -1, CORSField: -1, SpecField: -1, NotFoundField: -1, YieldFunc: yieldFuncs, PkgID: pkgID, UsesSync: usesSync}
+		MwField: -1, CORSField: -1, SpecField: -1, NotFoundField: -1, YieldFunc: yieldFuncs, PkgID: pkgID, UsesSync: usesSync, UnsimSync: unsimSync}
 	for _, o := range oneOf {
 		p.OneOf[o] = true
 	}
